@@ -960,9 +960,22 @@ fn gen_datum(g: &mut Gen, point: &str, prog: &mut GProg) -> Option<DataE> {
 }
 
 fn gen_pay_amount(g: &mut Gen, point: &str, prog: &mut GProg) -> AssetE {
-    let alts = ["ada(q)", "ada(int)", "ada+token", "anyasset", "ada+ada", "local", "paren-sum", "token-only", "ada(n)", "anyasset-n", "ada(q-n)"];
+    let alts = ["ada(q)", "ada(int)", "ada+token", "anyasset", "ada+ada", "local", "paren-sum", "token-only", "ada(n)", "anyasset-n", "ada(q-n)", "anyasset-param-class"];
     let q = || IntE::Param("q".into());
     match alts[g.pick(point, &alts)] {
+        // the asset class itself comes from parameters: the sum cannot be folded before they are applied
+        "anyasset-param-class" => {
+            for n in ["pol", "tname"] {
+                if !prog.params.iter().any(|(x, _)| x == n) {
+                    prog.params.push((n.into(), ParamTy::Bytes));
+                }
+            }
+            // literal amounts on purpose: only the class is open, so a premature fold has everything it looks at
+            AssetE::Add(
+                Box::new(AssetE::Ada(IntE::Lit(1300000))),
+                Box::new(AssetE::AnyAsset(BytesE::Param("pol".into()), BytesE::Param("tname".into()), IntE::Lit(2))),
+            )
+        }
         "ada(q)" => AssetE::Ada(q()),
         "ada(int)" => AssetE::Ada(int_leaf(g, &format!("{point}.int"), prog)),
         "ada+token" => {
